@@ -300,3 +300,33 @@ func All(root *V, maxNodes int, rng *ev.Rand) []*Mutant {
 	}
 	return out
 }
+
+// Spec names one mutation without materialising it.
+type Spec struct {
+	Path doctree.Path
+	Kind string
+}
+
+// Plan lists every (node, kind) pair (at up to maxNodes PRNG-chosen nodes); At decides applicability.
+func Plan(root *V, maxNodes int, rng *ev.Rand) []Spec {
+	var paths []doctree.Path
+	doctree.WalkPaths(root, func(p doctree.Path, v *V, parent *V) {
+		if len(p) > 0 {
+			paths = append(paths, append(doctree.Path{}, p...))
+		}
+	})
+	if maxNodes > 0 && len(paths) > maxNodes {
+		for i := len(paths) - 1; i > 0; i-- {
+			j := rng.Intn(i + 1)
+			paths[i], paths[j] = paths[j], paths[i]
+		}
+		paths = paths[:maxNodes]
+	}
+	var out []Spec
+	for _, p := range paths {
+		for _, k := range Kinds {
+			out = append(out, Spec{p, k})
+		}
+	}
+	return out
+}
